@@ -1,0 +1,51 @@
+//go:build verif
+
+package quickfix
+
+import "io"
+
+// VerifParser exposes the unexported stream parser (parser.go) to the
+// correspondence harness. It adds no behaviour: every call goes straight
+// to the real parser.
+type VerifParser struct {
+	p *parser
+}
+
+// VerifNewParser returns the real stream parser reading from r.
+func VerifNewParser(r io.Reader) *VerifParser {
+	return &VerifParser{p: newParser(r)}
+}
+
+// ReadMessage returns a copy of the next frame, or the error that ends the stream.
+func (v *VerifParser) ReadMessage() ([]byte, error) {
+	buf, err := v.p.ReadMessage()
+	if err != nil {
+		return nil, err
+	}
+	out := make([]byte, buf.Len())
+	copy(out, buf.Bytes())
+	return out, nil
+}
+
+// VerifBufferState reports len(buffer), cap(buffer), len(bigBuffer) of the parser.
+func (v *VerifParser) VerifBufferState() (int, int, int) {
+	return len(v.p.buffer), cap(v.p.buffer), len(v.p.bigBuffer)
+}
+
+// VerifReadLoop runs connection.go readLoop over r and returns the frames it delivered.
+func VerifReadLoop(r io.Reader) [][]byte {
+	msgIn := make(chan fixIn)
+	done := make(chan struct{})
+	var frames [][]byte
+	go func() {
+		defer close(done)
+		for m := range msgIn {
+			b := make([]byte, m.bytes.Len())
+			copy(b, m.bytes.Bytes())
+			frames = append(frames, b)
+		}
+	}()
+	readLoop(newParser(r), msgIn, nullLog{})
+	<-done
+	return frames
+}
